@@ -710,7 +710,7 @@ func opAct(g *gen, op string) []*act {
 	case "create":
 		return []*act{{kind: 'N', id: g.id(), value: 1, body: &frame{acts: []*act{{kind: 'S', k: 2, v: 5}}, end: "retcode", endTag: 3}}}
 	case "create2":
-		return []*act{{kind: 'N', id: g.id(), two: true, salt: 9, value: 0, body: &frame{end: "retcode", endTag: 4}}}
+		return []*act{{kind: 'N', id: g.id(), two: true, mayCollide: true, salt: 9, value: 0, body: &frame{end: "retcode", endTag: 4}}}
 	case "authcall":
 		return []*act{{kind: 'A', id: g.id(), auth: "b30", authNonce: 0, addr: "b21", value: 0, body: &frame{end: "stop"}}}
 	case "authcallvalue":
@@ -822,7 +822,7 @@ func runSearch(a map[string]string) {
 		case "create":
 			return &act{kind: 'N', id: g.id(), value: value, body: body}
 		case "create2":
-			return &act{kind: 'N', id: g.id(), two: true, salt: 5, value: value, body: body}
+			return &act{kind: 'N', id: g.id(), two: true, mayCollide: true, salt: 5, value: value, body: body}
 		case "authcall":
 			return &act{kind: 'A', id: g.id(), auth: "b30", authNonce: 0, addr: "b22", value: value, body: body}
 		}
